@@ -25,6 +25,7 @@ func init() {
 			"F7": "CreateTable builds the engine with the caller's options and registers every callback of the caller's callbacks struct through the engine's same-named setter (defaults only when nil is given)",
 			"F6": "the registry field is touched only by Load(own id) / Store(created table's id, that engine) / Delete(own id) / whole-map reset; GetTableEngine maps a failed Load to the sentinel",
 			"G3": "the address of a package-level variable of a production package is only ever read through (or set during initialisation); it is never returned, stored or passed on — constructors hand out fresh objects",
+			"G4": "receiver discipline: no method of these types assigns to a field of a value receiver (the assignment would be lost) or copies a sync.* field through its receiver (the manager holds its registry, a sync.Map, by value: a value receiver would register or look up tables in a private copy)",
 			"G1": "no package-level variable of a production package is written outside package initialisation",
 			"G2": "the engine never stores through its (possibly shared) options pointer; CreateTable builds a fresh engine and backend per table",
 		},
@@ -45,6 +46,7 @@ func ifaceMethodNames(i *types.Interface) []string {
 
 func checkC17(c *Ctx) {
 	p := c.P
+	checkReceiverDiscipline(c, "G4", func(n string) bool { return n == "manager" }, 20)
 	checkManagerCallbackWiring(c, "F7")
 	mi := p.Iface("", "Manager")
 	ei := p.Iface("", "TableEngine")
